@@ -950,6 +950,20 @@ def constrain_ages_wrapper(g):
     g.forall_paths(f"{name}:arguments-reach-kernel-result-returned", paths, mask,
                    "_constrain_ages(nodes_time, nodes_fixed, ts.edges_parent, ts.edges_child, epsilon, max_iterations) is returned",
                    only=lambda p: p.status == "return")
+    def untouched(p):
+        """frame: between the kernel call and the return nothing is stored into the kernel's result or into the
+        caller's nodes_time (an item store does not rebind the name, so the data-flow clause above cannot see it)"""
+        protected = {text_of(p.result), "nodes_time", "constrained_nodes_time"}
+        for ev in p.events:
+            if ev["kind"] in ("store-item", "store") and (ev.get("target") in protected or ev.get("base") in protected):
+                return f"line {ev.get('lineno')}: store into {ev.get('target')}[{ev.get('index', '')}]"
+            if ev["kind"] == "call" and ev.get("func") in ("sort", "fill", "put", "itemset", "resize", "partition") \
+                    and text_of(ev.get("recv", "")) in protected:
+                return f"in-place method {ev.get('func')} on {text_of(ev.get('recv'))}"
+        return None
+    g.forall_paths(f"{name}:kernel-result-and-input-not-modified", paths, untouched,
+                   "assigns: no element store / in-place method on the kernel's result or on nodes_time in the wrapper",
+                   only=lambda p: p.status == "return")
     ok, why = False, "nodes_fixed is not defined by an assignment"
     if "nodes_fixed" in defs:
         try:
